@@ -267,7 +267,9 @@ def scene_part(tape, stats, violations, digest):
     # (ii) foreign program / foreign options
     src2 = src + "param zz_extra = 1\n"
     sc2 = scenic.scenarioFromString(src2)
-    sc3 = scenic.scenarioFromString(src, params={"zz_override": 1})
+    # (the value of an overridden parameter is part of the options, also when it is falsy)
+    ovr = tape.choice([1, 0, 0.0, False, "", 2], "foreign.param.value")
+    sc3 = scenic.scenarioFromString(src, params={"zz_override": ovr})
     for name, other in (("other-program", sc2), ("other-options", sc3)):
         kind, res = decode(other, data)
         stats["foreign:" + name + ":" + kind] = stats.get("foreign:" + name + ":" + kind, 0) + 1
@@ -306,7 +308,10 @@ def replay_part(tape, stats, violations, digest):
     tables = g.tables(prog, ms + 2)
     schedule = g.schedule(ms + 1, nobj)
     seed = tape.intrange(0, 9, "sim.seed")
-    sample = {"dyn_program": src, "sim_seed": seed}
+    # magnitude of the dynamic properties: the tolerance is absolute, whatever their size
+    scale = tape.choice([1.0, 1.0, 1.0, 1e10], "world.scale")
+    drift = (1.0 * scale, 0.5 * scale, 0.0)
+    sample = {"dyn_program": src, "sim_seed": seed, "world_drift": list(drift)}
 
     def simulate(replay=None, perturb=None, tol=0.0, rng_seed=seed):
         dynrun.set_env(tables)
@@ -315,7 +320,7 @@ def replay_part(tape, stats, violations, digest):
         return dynrun.simulate_scene(
             scene, schedule, ms, prog["timestep"],
             sim_kwargs=dict(replay=replay, enableDivergenceCheck=True, divergenceTolerance=tol),
-            world_kwargs=dict(drift=(1.0, 0.5, 0.0), perturb=perturb))
+            world_kwargs=dict(drift=drift, perturb=perturb))
 
     dynrun.set_env(tables)
     random.seed(seed)
@@ -374,6 +379,30 @@ def replay_part(tape, stats, violations, digest):
                     "outcome": {k: v for k, v in o3.items() if k in ("kind", "exc", "msg", "time")},
                     "finding": None}})
         del o3
+    # storage faults on the recording of the simulation: truncated or corrupted replay data
+    # may be refused (SerializationError), may expose a divergence, may reject or may happen
+    # to decode to a valid run -- but must never fail in any other way
+    if len(rep) > 1:
+        for _ in range(3):
+            if tape.chance(1, 3, "replay.truncate?"):
+                bad = rep[: tape.draw(len(rep), "replay.cut")]
+                what = ["truncate", len(bad)]
+            else:
+                off = tape.draw(len(rep), "replay.off")
+                mask = tape.choice([1, 0x80, 0xFF, 0x10], "replay.mask")
+                bad = rep[:off] + bytes([rep[off] ^ mask]) + rep[off + 1:]
+                what = ["flip", off, mask]
+            o5 = simulate(replay=bad, tol=TAU, rng_seed=seed + 3000)
+            o5.pop("sim", None)
+            k = "replay-fault:" + what[0] + ":" + (o5.get("exc") or o5["kind"])
+            stats[k] = stats.get(k, 0) + 1
+            if o5["kind"] == "exception" and o5.get("exc") not in ("SerializationError", "DivergenceError"):
+                violations.append({"clause": "corrupted-replay-other-exception", "detail": {
+                    "program": src, "seed": seed, "fault": what, "replay_len": len(rep),
+                    "outcome": {k: v for k, v in o5.items() if k in ("kind", "exc", "msg", "where", "time")},
+                    "finding": None}})
+                break
+            dynrun.sanitize()
     o1.pop("sim", None)
     o2.pop("sim", None)
     dynrun.sanitize()
